@@ -19,25 +19,41 @@ def profile(draw, n_min=2, n_max=5, max_ballots=60):
     # letters, or numeric identifiers that concatenate ambiguously ('1'+'2' == '12')
     cands = (CANDS if draw(st.integers(0, 2)) else ["1", "12", "2", "21", "11", "112", "121"])[:n]
     shape = draw(st.sampled_from(["decisive", "decisive", "mixed", "tie", "tiny"]))
+    # some ballots also rank an identifier that is not a candidate of the contest (a write-in, a withdrawn candidate):
+    # the shipped .raire reader keeps each candidate's position in the FULL preference list, so the generator-side
+    # ranks of such a ballot have gaps ({C: 0, A: 2}); only their order means anything. The undeclared identifier is never
+    # generated in FIRST position: there both the generator and the audit count the ballot as nobody's first preference
+    # (rank 0 / rank 1 is what they test), which is a different - conservative - reading of the ballot, not a gap.
+    wi_mode = draw(st.integers(0, 3)) == 0
+
+    def _wi(sig):
+        if not wi_mode or len(sig) < 2 or draw(st.integers(0, 2)) == 0:
+            return ()
+        return tuple(sorted(draw(st.sets(st.integers(1, len(sig) - 1), min_size=1, max_size=2))))
+
     ballots = []
     if shape == "tiny":
         nb = draw(st.integers(1, 6))
-        ballots = [draw(pref_list(cands)) for _ in range(nb)]
+        for _ in range(nb):
+            b = draw(pref_list(cands))
+            ballots.append((b, _wi(b)))
     else:
         # a few ballot signatures with multiplicities: makes ties and clear winners both likely
         nsig = draw(st.integers(1, 6))
         for _ in range(nsig):
             sig = draw(pref_list(cands))
             mult = draw(st.integers(1, 12)) if shape != "tie" else draw(st.sampled_from([1, 2, 2, 3, 3, 4]))
-            ballots += [list(sig)] * mult
+            ballots += [(list(sig), _wi(sig))] * mult
         if shape == "decisive":
             fav = draw(st.permutations(cands))
-            ballots += [list(fav)] * draw(st.integers(len(ballots) // 2 + 1, len(ballots) + 5))
+            ballots += [(list(fav), ())] * draw(st.integers(len(ballots) // 2 + 1, len(ballots) + 5))
     ballots = ballots[:max_ballots]
     # blank ballots and records lacking the contest
     extra = draw(st.lists(st.sampled_from([[], None]), max_size=3))
-    ballots = ballots + extra
+    ballots = ballots + [(e, ()) for e in extra]
     ballots = list(draw(st.permutations(ballots))) if len(ballots) <= 12 else ballots
+    writeins = {str(i): list(w) for i, (_, w) in enumerate(ballots) if w}
+    ballots = [b for b, _ in ballots]
     real = [b for b in ballots if b is not None]
     ws = sorted(irv_winners(cands, real)) if real else list(cands)
     r = draw(st.integers(0, 9))
@@ -54,13 +70,22 @@ def profile(draw, n_min=2, n_max=5, max_ballots=60):
     extra = draw(st.sampled_from([0, 0, 0, 1, 3, 10, 40]))
     return {"cands": cands, "ballots": ballots, "winner": winner, "order_hint": order,
             "asn": draw(st.sampled_from(["bp_estimate", "cp_estimate"])), "tot_extra": extra,
-            "contest_name": draw(st.sampled_from(["c", "c", "339", 1]))}
+            "contest_name": draw(st.sampled_from(["c", "c", "339", 1])), "writeins": writeins}
 
 
 def raire_cvrs(prof, contest=None):
     """the generator-side CVR dict: {ballot id: {contest: {cand: 0-based rank}}}"""
     contest = prof.get("contest_name", "c") if contest is None else contest
     cvrs = {}
+    wi = prof.get("writeins") or {}
     for i, b in enumerate(prof["ballots"]):
-        cvrs[str(i)] = {} if b is None else {contest: {c: j for j, c in enumerate(b)}}
+        if b is None:
+            cvrs[str(i)] = {}
+            continue
+        before = wi.get(str(i), [])   # positions (in the clean list) in front of which an undeclared identifier is ranked
+        ranks, shift = {}, 0
+        for j, c in enumerate(b):
+            shift += before.count(j)
+            ranks[c] = j + shift
+        cvrs[str(i)] = {contest: ranks}
     return cvrs
